@@ -8,13 +8,13 @@ from common import Infra
 LEVEL = "model_checking"
 
 # family -> (quick sample size, thorough sample size)  (only used by the sampled "deep" families)
-FAMILIES = {"src1": (0, 0), "src2": (150, 1500), "dst1": (0, 0), "dst2": (60, 600), "prog2": (0, 0), "prog": (0, 0), "pct": (0, 0), "collide": (0, 0), "src3": (0, 0), "corrupt": (20000, 300000)}
+FAMILIES = {"src1": (0, 0), "src2": (150, 1500), "dst1": (0, 0), "dst2": (60, 600), "prog2": (0, 0), "prog": (0, 0), "pct": (0, 0), "collide": (0, 0), "src3": (0, 0), "pvar": (0, 0), "corrupt": (20000, 300000)}
 
 PROPS = {
     "C01": dict(families=["src1", "src2", "src3", "prog2", "prog", "collide"], invs=["C01_NeverOverdrawn", "C01_RejectedWhole"]),
-    "C03": dict(families=["dst1", "dst2", "src1", "src3", "pct"], invs=["C03_NoNegative", "C03_PerDestination", "C03_PerSource", "C03_Amount"]),
-    "C08": dict(families=["src1", "src2", "src3", "dst1", "dst2", "prog2", "prog", "pct", "collide"], invs=["C08_SameAsSource", "C08_SameMetadata", "C08_RefusedNotRun", "C08_BigValues"]),
-    "C12": dict(families=["src1", "src2", "src3", "dst1", "dst2", "prog2", "prog", "pct", "collide", "corrupt"], invs=["C12_NoPanicNoHang", "C12_DefinedClass", "C12_Repeatable"]),
+    "C03": dict(families=["pvar", "dst1", "dst2", "src1", "src3", "pct", "prog"], invs=["C03_NoNegative", "C03_PerDestination", "C03_PerSource", "C03_Amount", "C03_SameDecision"]),
+    "C08": dict(families=["pvar", "src1", "src2", "src3", "dst1", "dst2", "prog2", "prog", "pct", "collide"], invs=["C08_SameAsSource", "C08_SameMetadata", "C08_RefusedNotRun", "C08_BigValues"]),
+    "C12": dict(families=["pvar", "src1", "src2", "src3", "dst1", "dst2", "prog2", "prog", "pct", "collide", "corrupt"], invs=["C12_NoPanicNoHang", "C12_DefinedClass", "C12_Repeatable"]),
 }
 
 
@@ -129,8 +129,11 @@ def run_prop(ctx, prop):
     units = [u for f in P["families"] for u in SPLIT.get(f, (f,))]
     # the long ones first
     units.sort(key=lambda u: 0 if u.startswith(("dst1", "src1", "prog")) else 1)
-    with ThreadPoolExecutor(max_workers=8) as pool:
+    with ThreadPoolExecutor(max_workers=9) as pool:
+        cache_job = pool.submit(cache_part, ctx, binp) if prop == "C08" else None
         outs = list(pool.map(lambda f: family_run(ctx, f, binp), units))
+        if cache_job:
+            cache_job.result()
     total = distinct = states = 0
     classes = {}
     samples = []
@@ -167,8 +170,6 @@ def run_prop(ctx, prop):
                 ctx.violation(sig, what, {"kind": "numscript-case", "family": fam,
                                           "case": {k: r[k] for k in ("sends", "bal", "exp", "k", "expK", "binding") if k in r}, "text": r["text"],
                                           "vars": r.get("vars", {})})
-    if prop == "C08":
-        cache_part(ctx, binp)
     if total < 1000:
         raise Infra("only %d cases replayed" % total)
     if classes.get("ok", 0) < 100 or classes.get("insufficient", 0) < 10 or classes.get("compile-error", 0) < 10:
